@@ -11,6 +11,7 @@ Alpha == <<
   Recv_(1, 255, 3, 22, Px), Recv_(1, 255, 3, 22, PEmpty), Recv_(1, 255, 3, 22, P1111), Recv_(2, 255, 3, 22, Px),
   Recv_(0, 255, 3, 2, Pgarbage), Recv_(0, 255, 3, 2, PEmpty), Recv_(0, 255, 0, 18, Pgarbage), Recv_(0, 255, 0, 18, PEmpty),
   Recv_(1, 255, 3, 99, PEmpty), Recv_(1, 255, 4, 77, PEmpty), Recv_(1, 255, 3, 32, Px),
+  Recv_(1, 255, 3, -1, PEmpty), Recv_(0, 255, 3, -15, PEmpty), Recv_(1, 255, 4, -1, PEmpty),   \* negative type numbers exist in no protocol
   Bad_("short"), Bad_("empty"), Bad_("overrange"), Bad_("alpha"), Bad_("crossfield"), Bad_("float"),
   Recv_(1, 0, 1, 0, Pa), Recv_(1, 0, 2, 0, PEmpty), Recv_(2, 0, 1, 0, Pa)
 >>
